@@ -443,7 +443,7 @@ class Runner:
             env = self.env(t.get("env"))
             env.update(VERIF_STATS=os.path.join(self.bdir, "stats.%d.json" % i), VERIF_REPLAY_OUT=os.path.join(self.bdir, "replay.%d.json" % i),
                        VERIF_SHARD=str(i), VERIF_SHARDS=str(shards), VERIF_BDIR=self.bdir,
-                       VERIF_VERBOSE=str((i // max(1, len(self.parts())) + self.seed) % 2))
+                       VERIF_VERBOSE=str((i + i // max(1, len(self.parts())) + self.seed) % 2))
             if self.replay:
                 env["VERIF_REPLAY_IN"] = os.path.abspath(self.replay)
             if "GORACE" in env and (self.spec.get("race") or any(p.get("race") for p in self.parts())):
@@ -574,7 +574,7 @@ class Runner:
         env = self.env(t.get("env"))
         env.update(VERIF_STATS=os.path.join(self.bdir, "stats.%d.json" % i), VERIF_REPLAY_OUT=os.path.join(self.bdir, "replay.%d.json" % i),
                    VERIF_SHARD=str(i), VERIF_SHARDS=str(shards), VERIF_BDIR=self.bdir,
-                   VERIF_VERBOSE=str((i // max(1, len(self.parts())) + self.seed) % 2))
+                   VERIF_VERBOSE=str((i + i // max(1, len(self.parts())) + self.seed) % 2))
         try:
             os.remove(os.path.join(self.bdir, "replay.%d.json" % i))
         except OSError:
